@@ -191,6 +191,7 @@ func execC12(e *Env, pp any) {
 		unaryRuns++
 		unaryReqs = append(unaryReqs, append([]byte(nil), req...))
 		histMu.Unlock()
+		e.Log("h.unary", "", 0, "")
 		e.Pt("h.reply")
 		return append([]byte("echo:"), req...), nil
 	}
@@ -198,6 +199,7 @@ func execC12(e *Env, pp any) {
 		histMu.Lock()
 		streamRuns++
 		histMu.Unlock()
+		e.Log("h.stream", "", kind, "")
 		n := 0
 		for {
 			e.Pt("h.recv")
@@ -247,6 +249,7 @@ func execC12(e *Env, pp any) {
 		for i, q := range p.Seq {
 			e.Pt("raw.send")
 			e.Note("shape." + qShapeNames[q.Shape%numQShapes])
+			e.Log("raw."+qShapeNames[q.Shape%numQShapes], "", q.ID, "")
 			if a.Write(rctx, buildReq(RawReq{Shape: q.Shape % numQShapes, ID: q.ID}, i)) != nil {
 				return
 			}
